@@ -1880,7 +1880,7 @@ class Element(Mapping[str, Attribute]):
                 continue
             file.write(b'%b"%b" ' % (
                 indent_child,
-                attr.name.encode(encoding),
+                escape_text(attr.name).encode(encoding),
             ))
             if attr.is_array:
                 file.write(b'"%b_array"\r\n%b[\r\n' % (attr.type.value.encode(encoding), indent_child))
